@@ -74,8 +74,8 @@ TRUSTED = [
     'intro-buildoptions.json',
     'harness/c08_ref.py: the reference semantics written from the property statement (non-deterministic where the statement '
     'leaves an order open)',
-    'domain: option kinds string / boolean / combo / integer, names and values over [A-Za-z0-9_], no machine files, no '
-    'default_options, --backend=none, native build; a top-level option that has a yielding child is never removed, added '
+    'domain: option kinds string / boolean / combo / integer / array (with and without choices), names and values over [A-Za-z0-9_], no machine files, '
+    'fixed default_options in project() / subproject(), --backend=none, native build; a top-level option that has a yielding child is never removed, added '
     'later or changed in type',
 ]
 NWORKERS = 16
@@ -87,37 +87,48 @@ def S(d): return {'t': 'string', 'd': d}
 def B(d, y=False): return dict({'t': 'boolean', 'd': d}, **({'y': True} if y else {}))
 def C(c, d, y=False): return dict({'t': 'combo', 'c': list(c), 'd': d}, **({'y': True} if y else {}))
 def I(lo, hi, d): return {'t': 'integer', 'min': lo, 'max': hi, 'd': d}
+def A(c, d): return {'t': 'array', 'c': None if c is None else list(c), 'd': list(d)}
 
 
 INIT = {
     'top': {'t_str': S('ts0'), 't_combo': C('abc', 'a'), 't_int': I(0, 10, 3), 'shared': C('abc', 'a'),
-            'flag': B(False), 'boom': B(False), 'boom_late': B(False)},
-    'sub': {'s_str': S('ss0'), 's_combo': C('xyz', 'x'), 'shared': C('abc', 'b', True), 'flag': B(True, True)},
+            'flag': B(False), 't_arr': A(None, 'xy'), 'boom': B(False), 'boom_late': B(False)},
+    'sub': {'s_str': S('ss0'), 's_combo': C('xyz', 'x'), 'shared': C('abc', 'b', True), 'flag': B(True, True),
+            's_fix': S('sf0'), 's_fix2': S('sg0')},
 }
+# the reference sees the default_options of the build files as defaults of a fresh configuration
+REF.BUILD_FILE_DEFAULTS[:] = [x.split('=') for x in RUN.PDO_TOP] + [['sub:' + x.split('=')[0], x.split('=')[1]] for x in RUN.PDO_SUB + RUN.SPCALL]
 
 # edits: (project, option) -> specs it may be set to (None = remove the option)
 VARIANTS: T.Dict[T.Tuple[str, str], T.List[T.Optional[dict]]] = {
     ('top', 't_str'): [S('ts0'), S('ts1'), None, B(True)],
     ('top', 't_combo'): [C('abc', 'a'), C('abd', 'a'), C('bc', 'b'), C('abc', 'c'), None, S('a')],
-    ('top', 't_int'): [I(0, 10, 3), I(0, 5, 2), I(5, 20, 7), None, S('seven')],
+    ('top', 't_int'): [I(0, 10, 3), I(0, 5, 2), I(5, 20, 7), I(0, 10, 7), None, S('seven')],
     ('top', 'shared'): [C('abc', 'a'), C('abd', 'a'), C('ab', 'b'), C('abc', 'c')],
     ('top', 'flag'): [B(False), B(True)],
     ('top', 'extra'): [S('e0'), C('pq', 'p'), None],
+    # an array option gains / loses / changes its `choices:` list
+    ('top', 't_arr'): [A(None, 'xy'), A('xyz', 'x'), A('yz', 'y'), A(None, 'q'), A('xyz', 'xy'), None],
+    ('sub', 's_arr'): [A('pqr', 'p'), A(None, 'p'), None],
     ('sub', 's_str'): [S('ss0'), S('ss1'), None, B(False)],
-    ('sub', 's_combo'): [C('xyz', 'x'), C('xyw', 'x'), C('yz', 'y'), None],
+    ('sub', 's_combo'): [C('xyz', 'x'), C('xyw', 'x'), C('yz', 'y'), C('xyz', 'z'), None],
     ('sub', 'shared'): [C('abc', 'b', True), C('abd', 'b', True), None, C('abc', 'b')],
     ('sub', 'flag'): [B(True, True), None],
     ('sub', 's_extra'): [I(1, 9, 4), S('x0'), None],
+    ('sub', 's_fix'): [S('sf0'), S('sf1')],
 }
 # which edits re-derive defects that are already recorded (keeps their share of the random stream bounded)
 VALUES: T.Dict[str, T.List[str]] = {
-    't_str': ['u1', 'u2', 'ts0'], 't_combo': ['a', 'b', 'c', 'd', 'zz'], 't_int': ['0', '4', '7', '12', 'x'],
+    't_str': ['u1', 'u2', 'ts0', 'ts1'], 't_combo': ['a', 'b', 'c', 'd', 'zz'], 't_int': ['0', '3', '4', '7', '12', 'x'],
+    't_arr': ['x', 'x,z', 'x,y', 'q', ''], 'sub:s_arr': ['p', 'q,r', 'w'],
     'shared': ['a', 'b', 'c', 'd'], 'flag': ['true', 'false'], 'extra': ['e1', 'p', 'q'],
     'sub:s_str': ['v1', 'v2', 'ss0'], 'sub:s_combo': ['x', 'y', 'z', 'w'], 'sub:shared': ['a', 'b', 'c', 'd'],
-    'sub:flag': ['true', 'false'], 'sub:s_extra': ['4', '8', 'x0'],
+    'sub:flag': ['true', 'false'], 'sub:s_extra': ['4', '8', 'x0'], 'sub:s_fix': ['frompdo', 'f1'], 'sub:s_fix2': ['sg0', 'g1'],
     'warning_level': ['0', '2', '3', '9'], 'sub:warning_level': ['0', '2', '3', '9'],
     'nosuch': ['1'], 'sub:nosuch': ['1'],
 }
+PIN = {'t_str': 'ts0', 't_combo': 'a', 't_int': '3', 't_arr': 'x,y', 'flag': 'false', 'sub:s_str': 'ss0',
+       'sub:s_combo': 'x', 'warning_level': '1'}
 UKEYS = ['sub:shared', 'sub:flag', 'sub:warning_level', 'sub:s_str', 'sub:nosuch']
 
 
@@ -157,6 +168,13 @@ def rand_cmd(rng: random.Random, first: bool) -> dict:
         return c
     if r < 0.79:
         return {'op': 'configure', 'D': [[rng.choice(['boom', 'boom_late']), 'false']], 'U': []}
+    if r < 0.84:
+        # pin options to the value they have by default (must be recorded although nothing changes)
+        ks = rng.sample(list(PIN), rng.choice([1, 1, 2]))
+        c = {'op': rng.choice(['configure', 'configure', 'reconfigure']), 'D': [[k, PIN[k]] for k in ks]}
+        if c['op'] == 'configure':
+            c['U'] = []
+        return c
     proj, name = rng.choice(list(VARIANTS))
     return {'op': 'edit', 'proj': proj, 'name': name, 'spec': rng.choice(VARIANTS[(proj, name)])}
 
@@ -183,6 +201,17 @@ CORPUS: T.List[T.List[dict]] = [
     [su(('t_combo', 'c')), ed('top', 't_combo', C('abd', 'a')), rc(), ed('top', 'extra', S('e0')), rc(), WIPE],
     [su(('t_combo', 'b')), ed('top', 't_combo', C('bc', 'b')), cf(('t_int', '4')), rc()],
     [su(), ed('sub', 's_combo', None), ed('top', 't_str', S('ts1')), rc(), cf(('t_str', 'u2')), WIPE],
+    # arrays: gaining / losing a choices list keeps a still-valid value, else the new default
+    [su(('t_arr', 'x,z')), ed('top', 't_arr', A('xyz', 'x')), rc(), ed('top', 't_arr', A('yz', 'y')), rc(), WIPE],
+    [su(), ed('top', 't_arr', A('xyz', 'x')), cf(('t_int', '4')), rc(), cf(('t_arr', 'q')), cf(('t_arr', 'z,y')), WIPE],
+    [su(('t_arr', 'q')), ed('top', 't_arr', A('xyz', 'xy')), rc(), ed('top', 't_arr', A(None, 'q')), rc()],
+    [su(), ed('sub', 's_arr', A('pqr', 'p')), rc(('sub:s_arr', 'q,r')), ed('sub', 's_arr', A(None, 'p')), rc(), cf(('sub:s_arr', 'w')), WIPE],
+    # pin an option to the value it currently has, then change the default: the pin must be recorded and survive a wipe
+    [su(), cf(('t_str', 'ts0')), ed('top', 't_str', S('ts1')), rc(), WIPE],
+    [su(('t_combo', 'a'), ('t_int', '3')), ed('top', 't_combo', C('abc', 'c')), ed('top', 't_int', I(0, 10, 7)), WIPE, rc()],
+    [su(), rc(('sub:s_str', 'ss0'), ('t_arr', 'x,y')), ed('sub', 's_str', S('ss1')), ed('top', 't_arr', A(None, 'q')), WIPE],
+    [su(), cf(('warning_level', '1'), ('sub:s_combo', 'x')), ed('sub', 's_combo', C('xyz', 'z')), WIPE],
+    [su(('sub:warning_level', '3'), ('warning_level', '3')), cf(('warning_level', '2')), rc(), cf(('warning_level', '3')), WIPE],
     # failures
     [su(('t_str', 'u1')), rc(('t_str', 'u2'), ('boom', 'true')), cf(('t_combo', 'zz'), ('t_int', '4')), rc()],
     [su(), cf(('boom', 'true')), rc(('t_int', '4')), cf(('boom', 'false')), rc()],
@@ -227,6 +256,8 @@ def e_key(k: str) -> str:
 
 
 def e_val(v: T.Any) -> str:
+    if isinstance(v, list):
+        return 'a' + ''.join('~' + enc(x) for x in v)
     if isinstance(v, bool):
         return 'b1' if v else 'b0'
     if isinstance(v, int):
@@ -242,6 +273,8 @@ def e_spec(sp: dict) -> str:
         k = 'B'
     elif t == 'combo':
         k = 'C' + ''.join('~' + enc(c) for c in sp['c'])
+    elif t == 'array':
+        k = 'An' if sp.get('c') is None else 'A' + ''.join('~' + enc(c) for c in sp['c'])
     else:
         k = 'I%s_%s' % ('n' if sp.get('min') is None else sp['min'], 'n' if sp.get('max') is None else sp['max'])
     return f"{k}/{e_val(sp['d'])}/{1 if sp.get('y') else 0}/0"
@@ -278,8 +311,13 @@ def e_cmd(c: dict) -> str:
     raise ValueError(op)
 
 
+def e_dol(l: T.List[str]) -> str:
+    return ','.join(f"{e_key(x.split('=')[0])}={e_val(x.split('=')[1])}" for x in l)
+
+
 def model_line(hist: T.List[dict]) -> str:
-    return 'hist ' + '|'.join([e_defs(INIT['top']), e_defs(INIT['sub'])] + [e_cmd(c) for c in hist])
+    return 'hist ' + '|'.join([e_defs(INIT['top']), e_defs(INIT['sub']), e_dol(RUN.PDO_TOP), e_dol(RUN.PDO_SUB),
+                               e_dol(RUN.SPCALL)] + [e_cmd(c) for c in hist])
 
 
 def jn(items: T.Iterable[str]) -> str:
@@ -466,6 +504,24 @@ def run_batch(ctx: Ctx, hists: T.List[T.List[dict]], label: str) -> None:
     answers: T.List[str] = []
     if ctx.model_available:
         answers = ctx.driver('life', [model_line(h) for h in hists])
+    # The commands are deterministic.  A history that deviates (from the model or from the reference) is executed a
+    # second time before anything is reported: only what both executions show is a deviation of the code; a
+    # difference between the two executions is an infrastructure event (overloaded machine) and is put on record.
+    suspects = [i for i, h in enumerate(hists)
+                if oracle(h, results[i]) is not None or
+                (answers and answers[i].split('|') != [obs_string(c, ob) for c, ob in zip(h, results[i])])]
+    if suspects:
+        with concurrent.futures.ProcessPoolExecutor(NWORKERS) as ex:
+            for idx, obs in ex.map(_work, [jobs[i] for i in suspects], chunksize=1):
+                first = [obs_string(c, ob) for c, ob in zip(hists[idx], results[idx])]
+                second = [obs_string(c, ob) for c, ob in zip(hists[idx], obs)]
+                if first != second:
+                    j = next(k for k in range(len(first)) if first[k] != second[k])
+                    ctx.tag('unrepeatable-execution')
+                    ctx.notes.append('two executions of one history differ (second one used): ' + json.dumps(
+                        {'history': hists[idx][:j + 1], 'first': results[idx][j].get('err') or first[j][:120],
+                         'second': obs[j].get('err') or second[j][:120]})[:900])
+                    results[idx] = obs
     for i, h in enumerate(hists):
         obs = results[i]
         ctx.count(len(h))
